@@ -1202,6 +1202,10 @@ def run(prop, ops_path, impl_path, profile):
                     check_struct(case, r2, sn, fam, fails)
             if op == "shapes" and (t["outcome"] != "ok" or t["ret"] != '"ok"'):
                 fails.append("scenario on another element shape: %s %s" % (t["outcome"], t["ret"]))
+            if op == "sweep" and (t["outcome"] != "ok" or t["ret"] != '"ok"'):
+                fails.append("differential sweep over element shapes (families %s, seed %s): %s %s" % (
+                    toks[2] if len(toks) > 2 else "?", toks[3] if len(toks) > 3 else "?", t["outcome"],
+                    t["ret"].replace("~", " ")))
             if op in ("gdm", "gdum") and t["outcome"] == "ok" and t["ret"] and fam & {"struct", "gdm", "unchecked"}:
                 # whatever `==` answers: two of the returned `&mut` never point into the same slot
                 # (for the unchecked variant only when the requested keys are pairwise different)
